@@ -62,7 +62,8 @@ def concrete(kind, rng, nprng):
   if kind == 'nd_num_native':
     return rng.choice([arr((3,)), arr((2, 3)), arr((2, 1, 3, 2))])
   if kind == 'nd_num_swapped':
-    a = arr((3,)) if dt not in (np.bool_, np.int8, np.uint8) else np.array([1, 2, 3], np.int32)
+    shape = rng.choice([(3,), (3,), (), (2, 2), (0,), (1,)])     # every rank, also 0-d and empty, in the foreign byte order
+    a = arr(shape) if dt not in (np.bool_, np.int8, np.uint8) else (np.arange(1, 1 + int(np.prod(shape)), dtype=np.int32).reshape(shape))
     return a.astype(a.dtype.newbyteorder('>' if a.dtype.byteorder in ('=', '<', '|') else '<'))
   if kind == 'nd_num_fortran':
     return np.asfortranarray(arr((3, 4)))
@@ -219,7 +220,22 @@ def run(ctx):
       'dict_state': {'params': {'a': np.arange(5, dtype=np.int16)}, 'agg': fedjax.aggregators.compression.CompressionState(12.5, jax.random.PRNGKey(3)),
                      'table': {b'c1': {'s': jnp.ones(2)}, b'c2': {'s': jnp.zeros(2)}}},
   }
-  from vf.props.c10 import fingerprint  # pylint: disable=g-import-not-at-top
+  # server states as users build them: NumPy leaves of every width (64-bit ones exceed JAX's default 32-bit types), 0-d
+  # arrays, NumPy and Python scalars, bytes keys
+  states['numpy_state'] = {'step': np.int64(2**40 + 17), 'lr': np.float64(0.1), 'big': np.array([2**40 + 17, -3], np.int64),
+                           'u': np.array([2**63 + 5], np.uint64), 'f64': np.array([0.1, 1e-300, 1e300], np.float64),
+                           'c128': np.array([1 + 1e-12j], np.complex128), 'zero_d': np.array(0.1, np.float64), 'n': 7, 'x': 0.1,
+                           'table': {b'\x00id': np.arange(3, dtype=np.int64)}}
+  for ti in range(40 if big else 12):
+    kinds = [rng.choice(['nd_num_native', 'nd_num_swapped', 'nd_num_fortran', 'nd_num_strided', 'nd_num_0d', 'nd_num_empty', 'jax_array', 'np_scalar',
+                         'py_int', 'py_float', 'py_bool', 'py_str', 'py_bytes', 'py_none']) for _ in range(rng.randint(1, 4))]
+    states[f'random_{ti}'] = {f'k{j}': concrete(k, rng, nprng) for j, k in enumerate(kinds)}
+
+  def fingerprint(tree):
+    # tree structure plus the projection (type, dtype name, shape, values) of every leaf
+    leaves = jax.tree_util.tree_leaves(tree, is_leaf=lambda x: x is None)
+    return str(jax.tree_util.tree_structure(tree, is_leaf=lambda x: x is None)) + '|' + repr([project(np.asarray(l)) if hasattr(l, 'dtype') and not isinstance(l, np.generic) else project(l) for l in leaves])
+
   for name, st in states.items():
     d = os.path.join(ctx.scratch, 'ck_' + name)
     shutil.rmtree(d, ignore_errors=True)
